@@ -100,6 +100,9 @@ type Graph struct {
 	Flows   []*Flow      `json:"flows"`
 	Objects []DataObject `json:"objects,omitempty"`
 	Lang    string       `json:"lang,omitempty"` // definitions expressionLanguage: "" => expr
+	// FlowsReversed: the sequenceFlow elements are written in reverse order of creation, so that the document
+	// order of the flows differs from the order in which the nodes list them as incoming / outgoing
+	FlowsReversed bool `json:"flows_reversed,omitempty"`
 	nidx    map[string]*Node
 	fidx    map[string]*Flow
 	n       int
@@ -402,7 +405,14 @@ func (g *Graph) renderScope(b *strings.Builder, scope, ind string) {
 			fmt.Fprintf(b, "%s</bpmn:subProcess>\n", ind)
 		}
 	}
-	for _, f := range g.Flows {
+	flows := g.Flows
+	if g.FlowsReversed {
+		flows = make([]*Flow, 0, len(g.Flows))
+		for i := len(g.Flows) - 1; i >= 0; i-- {
+			flows = append(flows, g.Flows[i])
+		}
+	}
+	for _, f := range flows {
 		if f.Scope != scope {
 			continue
 		}
